@@ -9,8 +9,7 @@ namespace PV.C02
 open PV.Expr PV.C11
 
 mutual
-/-- inside the part of the fragment the range-structure theorem covers: no f-string pieces, lambdas without
-    parameters -/
+/-- inside the part of the fragment the range-structure theorem covers: no f-string pieces -/
 def plain : RExpr → Bool
   | .name _ _ => true
   | .const _ _ => true
@@ -18,7 +17,7 @@ def plain : RExpr → Bool
   | .namedExpr _ t v => plain t && plain v
   | .binOp _ l _ r => plain l && plain r
   | .unaryOp _ _ e => plain e
-  | .lambda _ _ po ar va ko kw b => po.isEmpty && ar.isEmpty && va.isNone && ko.isEmpty && kw.isNone && plain b
+  | .lambda _ _ po ar _ ko _ b => plainParams po && plainParams ar && plainParams ko && plain b
   | .ifExp _ t b o => plain t && plain b && plain o
   | .dict _ items => plainItems items
   | .set _ es => plainL es
@@ -54,6 +53,9 @@ def plainKws : List RKeyword → Bool
 def plainItems : List RDictItem → Bool
   | [] => true
   | .mk k v :: is => plainO k && plain v && plainItems is
+def plainParams : List RParam → Bool
+  | [] => true
+  | .mk _ _ _ d :: ps => plainO d && plainParams ps
 end
 
 variable {src : List Nat}
@@ -271,6 +273,142 @@ theorem seq_values : ∀ (is : List RDictItem) (lo hi : Nat), SeqG (RSD src) lo 
     obtain ⟨m1, g1, g2, g3⟩ := h1.2 (by simp [hp.1])
     exact ⟨m, g3.mono g2 (Nat.le_refl _), h2, seq_values is m hi h3 hp.2⟩
 
+/-! ### the children of an `Arguments` node: parameters and `*`/`**` parameters, in source order -/
+
+inductive PItem where
+  | param (slot : String) (p : RParam)
+  | arg (slot : String) (v : Rg × Ident)
+
+def PItem.tree : PItem → Tree
+  | .param s (.mk rg drg _ d) =>
+    .node "ArgWithDefault" s true (some rg) (.node "Arg" "def" false (some drg) [] :: optTree "default" d)
+  | .arg s v => argTree s v
+
+def PItem.range : PItem → Rg
+  | .param _ (.mk rg _ _ _) => rg
+  | .arg _ v => v.1
+
+def PItem.plain : PItem → Bool
+  | .param _ (.mk _ _ _ d) => plainO d
+  | .arg _ _ => true
+
+/-- the items of a parameter list in the order of the `Arguments` fields — which is source order -/
+def argItems (po ar : List RParam) (va : Option (Rg × Ident)) (ko : List RParam) (kw : Option (Rg × Ident)) :
+    List PItem :=
+  po.map (.param "posonlyargs") ++ ar.map (.param "args") ++ (va.map (.arg "vararg")).toList ++
+    ko.map (.param "kwonlyargs") ++ (kw.map (.arg "kwarg")).toList
+
+theorem paramTrees_eq (s : String) : ∀ ps : List RParam, paramTrees s ps = (ps.map (.param s)).map PItem.tree
+  | [] => by simp [paramTrees]
+  | .mk rg drg n d :: ps => by simp [paramTrees, PItem.tree, paramTrees_eq s ps]
+
+theorem argChildren_eq (po ar : List RParam) (va : Option (Rg × Ident)) (ko : List RParam) (kw : Option (Rg × Ident)) :
+    paramTrees "posonlyargs" po ++ paramTrees "args" ar ++ (va.map (argTree "vararg")).toList ++
+      paramTrees "kwonlyargs" ko ++ (kw.map (argTree "kwarg")).toList = (argItems po ar va ko kw).map PItem.tree := by
+  simp only [argItems, List.map_append, paramTrees_eq]
+  cases va <;> cases kw <;> simp [PItem.tree]
+
+/-- a parameter item in a window: its range is a token span in the window; the `Arg` has the same range; a default
+    value is a fine tree somewhere -/
+def RSI (src : List Nat) (lo hi : Nat) (x : PItem) : Prop :=
+  lo ≤ hi ∧ rgOk src x.range ∧ lo ≤ x.range.1 ∧ x.range.2 ≤ hi ∧
+    (match x with
+     | .param _ (.mk rg drg _ d) => drg = rg ∧ (plainO d = true → ∀ e, d = some e → ∃ a b, Res src a b e)
+     | .arg _ _ => True)
+
+theorem windowed_rsi (src : List Nat) : Windowed (RSI src) :=
+  ⟨fun {lo hi lo' hi' x} h a b => ⟨by have := h.1; omega, h.2.1, by have := h.2.2.1; omega,
+      by have := h.2.2.2.1; omega, h.2.2.2.2⟩, fun h => h.1⟩
+
+theorem rsi_relabel {lo hi : Nat} {s s' : String} {p : RParam} (h : RSI src lo hi (.param s p)) :
+    RSI src lo hi (.param s' p) := by cases p; exact h
+
+theorem seq_relabel (s s' : String) : ∀ {ps : List RParam} {lo hi : Nat},
+    SeqG (RSI src) lo hi (ps.map (.param s)) → SeqG (RSI src) lo hi (ps.map (.param s'))
+  | [], _, _, _ => trivial
+  | _ :: _, _, _, ⟨m, h1, h2, h3⟩ => ⟨m, rsi_relabel h1, h2, seq_relabel s s' h3⟩
+
+theorem item_range (x : PItem) : x.tree.range = some x.range := by
+  cases x with
+  | param s p => cases p; rfl
+  | arg s v => rfl
+
+/-- items in consecutive windows are ordered siblings, whatever their fields -/
+theorem sibsOk_items (k : String) : ∀ (xs : List PItem) (lo hi : Nat), SeqG (RSI src) lo hi xs →
+    sibsOk k (xs.map PItem.tree) = true
+  | [], _, _, _ => by simp [sibsOk]
+  | [_], _, _, _ => by simp [sibsOk]
+  | x :: y :: xs, lo, hi, ⟨m, h1, _, h3⟩ => by
+    have ih := sibsOk_items k (y :: xs) m hi h3
+    obtain ⟨m2, h4, _, _⟩ := h3
+    simp only [List.map_cons] at ih ⊢
+    simp only [sibsOk, ih, Bool.and_true, item_range]
+    have := h1.2.2.2.1
+    have := h4.2.2.1
+    split <;> simp <;> omega
+
+theorem item_okX {x : PItem} {lo hi a b : Nat} (h : RSI src lo hi x) (hp : x.plain = true) (ha : a ≤ lo) (hb : hi ≤ b) :
+    okX src (some (a, b)) x.tree = true := by
+  obtain ⟨h0, h1, h2, h3, h4⟩ := h
+  cases x with
+  | arg s v =>
+    obtain ⟨⟨v1, v2⟩, vn⟩ := v
+    simp only [PItem.range] at h1 h2 h3
+    simp only [PItem.tree, argTree, okX, okListX, Bool.and_eq_true, Bool.and_true, Option.orElse]
+    refine ⟨⟨h1, ?_⟩, by simp [sibsOk]⟩
+    simp only [enclOkX, Bool.or_eq_true, Bool.and_eq_true, decide_eq_true_eq]
+    right; omega
+  | param s p =>
+    obtain ⟨rg, drg, n, d⟩ := p
+    simp only [PItem.range] at h1 h2 h3
+    simp only [PItem.plain] at hp
+    obtain ⟨rfl, h5⟩ := h4
+    simp only [PItem.tree]
+    rw [okX, okListX, okX, okListX]
+    simp only [Bool.and_eq_true, Option.orElse, Bool.and_true]
+    refine ⟨⟨⟨h1, ?_⟩, ?_⟩, ⟨⟨h1, ?_⟩, by simp [sibsOk]⟩, ?_⟩
+    · simp only [enclOkX, Bool.or_eq_true, Bool.and_eq_true, decide_eq_true_eq]
+      right; omega
+    · rw [sibsOk_cons_notList _ _ _ rfl]
+      cases d <;> simp [optTree, sibsOk]
+    · simp only [enclOkX, Bool.or_eq_true, Bool.and_eq_true, decide_eq_true_eq]
+      right; exact ⟨Nat.le_refl _, Nat.le_refl _⟩
+    · cases d with
+      | none => simp [optTree, okListX]
+      | some e =>
+        obtain ⟨a', b', he⟩ := h5 hp e rfl
+        simp [optTree, okListX, he.toOkX_default]
+
+theorem okListX_items (a b : Nat) : ∀ (xs : List PItem) (lo hi : Nat), SeqG (RSI src) lo hi xs →
+    (∀ x ∈ xs, x.plain = true) → a ≤ lo → hi ≤ b → okListX src (some (a, b)) (xs.map PItem.tree) = true
+  | [], _, _, _, _, _, _ => by simp [okListX]
+  | x :: xs, lo, hi, ⟨m, h1, h2, h3⟩, hp, ha, hb => by
+    simp only [List.map_cons, okListX, Bool.and_eq_true]
+    have := h1.1
+    exact ⟨item_okX h1 (hp x (by simp)) ha (by omega),
+      okListX_items a b xs m hi h3 (fun y hy => hp y (by simp [hy])) (by omega) hb⟩
+
+theorem plainParams_items (s : String) : ∀ ps : List RParam, plainParams ps = true →
+    ∀ x ∈ ps.map (PItem.param s), x.plain = true
+  | [], _, x, hx => by cases hx
+  | .mk rg drg n d :: ps, h, x, hx => by
+    simp only [plainParams, Bool.and_eq_true] at h
+    simp only [List.map_cons, List.mem_cons] at hx
+    rcases hx with rfl | hx
+    · exact h.1
+    · exact plainParams_items s ps h.2 x hx
+
+theorem plain_argItems {po ar ko : List RParam} {va kw : Option (Rg × Ident)} (h1 : plainParams po = true)
+    (h2 : plainParams ar = true) (h3 : plainParams ko = true) : ∀ x ∈ argItems po ar va ko kw, x.plain = true := by
+  intro x hx
+  simp only [argItems, List.mem_append] at hx
+  rcases hx with (((hx | hx) | hx) | hx) | hx
+  · exact plainParams_items _ po h1 x hx
+  · exact plainParams_items _ ar h2 x hx
+  · cases va <;> simp at hx; subst hx; rfl
+  · exact plainParams_items _ ko h3 x hx
+  · cases kw <;> simp at hx; subst hx; rfl
+
 /-! ### one lemma per node kind -/
 
 section nodes
@@ -361,18 +499,21 @@ theorem rs_ifExp {t bd o} (hrg : rgOk src (a, b)) (h1 : lo ≤ a) (h2 : b ≤ hi
     exact Res.intro' (a, b) rfl hrg h1 h2 (by simp [RExpr.children, sibsOk, Tree.inList])
       (by simp [RExpr.children, okListX, (ht.2 hp.1.1).toOkX, (hb.2 hp.1.2).toOkX, (ho.2 hp.2).toOkX])⟩
 
-/-- a lambda without parameters: the empty `Arguments` node carries `argsRg` -/
+/-- `Lambda`: the `Arguments` node carries `argsRg`; its children are the parameter items in source order -/
 theorem rs_lambda {argsRg : Rg} {po ar va ko kw bd} (hrg : rgOk src (a, b)) (h1 : lo ≤ a) (h2 : b ≤ hi)
-    (ha : rgOk src argsRg) (ha1 : a ≤ argsRg.1) (ha2 : argsRg.2 ≤ b) (hb : RS src a b bd) :
-    RS src lo hi (.lambda (a, b) argsRg po ar va ko kw bd) :=
+    (ha : rgOk src argsRg) (ha1 : a ≤ argsRg.1) (ha2 : argsRg.2 ≤ b) {l h : Nat}
+    (hs : SeqG (RSI src) l h (argItems po ar va ko kw)) (hl : argsRg.1 ≤ l) (hh : h ≤ argsRg.2)
+    (hb : RS src a b bd) : RS src lo hi (.lambda (a, b) argsRg po ar va ko kw bd) :=
   ⟨by have := rgOk_le hrg; omega, fun hp => by
-    simp only [plain, Bool.and_eq_true, List.isEmpty_iff, Option.isNone_iff_eq_none] at hp
-    obtain ⟨⟨⟨⟨⟨rfl, rfl⟩, rfl⟩, rfl⟩, rfl⟩, hb'⟩ := hp
+    simp only [plain, Bool.and_eq_true] at hp
+    obtain ⟨⟨⟨p1, p2⟩, p3⟩, hb'⟩ := hp
     refine Res.intro' (a, b) rfl hrg h1 h2 (by simp [RExpr.children, sibsOk, Tree.inList]) ?_
-    simp only [RExpr.children, paramTrees, Option.map_none, Option.toList_none, List.append_nil]
-    rw [okListX, okListX, okListX, okX, okListX]
+    simp only [RExpr.children, argChildren_eq]
+    rw [okListX, okListX, okListX, okX]
     simp only [Bool.and_eq_true, Bool.and_true, Option.orElse]
-    refine ⟨⟨⟨ha, ?_⟩, by simp [sibsOk]⟩, (hb.2 hb').toOkX "body" false a b (Nat.le_refl _) (Nat.le_refl _)⟩
+    refine ⟨⟨⟨⟨ha, ?_⟩, sibsOk_items _ _ l h hs⟩,
+      okListX_items argsRg.1 argsRg.2 _ l h hs (plain_argItems p1 p2 p3) hl hh⟩,
+      (hb.2 hb').toOkX "body" false a b (Nat.le_refl _) (Nat.le_refl _)⟩
     simp only [enclOkX, Bool.or_eq_true, Bool.and_eq_true, decide_eq_true_eq]
     right; omega⟩
 
